@@ -204,7 +204,11 @@ func (cs *clientState) unblock(reason string, isError bool) {
 				// only one unblock is posted per capture to prevent
 				// getting stuck here
 				cs.unblockCh <- unblockReason{reason: reason, isError: isError}
+				verifPoint("unblock-posted", cs.id, 0)
 			}
+		}
+		if locked == CS_UNCAPTURED {
+			verifPoint("unblock-dropped", cs.id, 0)
 		}
 		atomic.SwapInt32(&cs.blocked, locked)
 
